@@ -303,4 +303,4 @@ def enumerate_cases(tier):
 
 
 def budget(tier):
-    return {"examples": 500, "shards": 1} if tier == "quick" else {"examples": 6000, "shards": 16}
+    return {"examples": 1500, "shards": 1} if tier == "quick" else {"examples": 6000, "shards": 16}
